@@ -78,6 +78,19 @@ Proof. eexists. split; [runit|reflexivity]. Qed.
 Theorem DontStop_deme_ok c fuel d s : exists b, answers (gen_DontStop_deme c fuel d) s b /\ lsc_eval LDontStop d (demes (ms s)) = Some b.
 Proof. eexists. split; [runit|reflexivity]. Qed.
 
+(* FitnessSteadiness: what its __call__ decides before any fitness value is looked at (translated: true = no early return) is the part of the verdict
+   the machine knows — false while the deme has run fewer than n metaepochs; from then on the float-valued verdict is an oracle *)
+Theorem FitnessSteadiness_early_ok c fuel n d s :
+  exists b, answers (gen_FitnessSteadiness_early c fuel n d) s b /\
+            lsc_eval (LSteadiness n) d (demes (ms s)) = (if b then None else Some false).
+Proof.
+  destruct (d_meta (dnth d (demes (ms s))) <? n) eqn:E.
+  - exists false. split; [unfold answers, gen_FitnessSteadiness_early, returned; intros; dunf; rewrite ?E; try reflexivity|cbn [lsc_eval]; now rewrite E].
+    all: try (apply Nat.ltb_lt in E; repeat match goal with |- context [?a <? ?b] => destruct (Nat.ltb_spec a b) | |- context [?a <=? ?b] => destruct (Nat.leb_spec a b) end; try reflexivity; lia).
+  - exists true. split; [unfold answers, gen_FitnessSteadiness_early, returned; intros; dunf; rewrite ?E; try reflexivity|cbn [lsc_eval]; now rewrite E].
+    all: try (apply Nat.ltb_ge in E; repeat match goal with |- context [?a <? ?b] => destruct (Nat.ltb_spec a b) | |- context [?a <=? ?b] => destruct (Nat.leb_spec a b) end; try reflexivity; lia).
+Qed.
+
 (* ---------------------------------------------------------------- AllStopped *)
 Lemma no_active_iff c ds : levels_ok c ds ->
   Nat.eqb (length (gen_active_demes c ds)) 0 = forallb (fun d => negb (d_active d)) ds.
